@@ -1,4 +1,19 @@
 import PySMT.Impl.WalkerDriver
-/-! Driver for C14: the generic `DagWalker` model (`walker <graph> <ops…>` requests, see
-    `PySMT/Impl/WalkerDriver.lean` for the protocol). -/
-def main : IO Unit := PySMT.WalkerDriver.main
+import PySMT.Impl.TheoryHeapDriver
+/-! Driver for C14: the generic `DagWalker` model (`walker <graph> <ops…>`, see `PySMT/Impl/WalkerDriver.lean`)
+    and the heap model of `TheoryOracle` (`theoryheap <history> <dag>`, see `PySMT/Impl/TheoryHeapDriver.lean`). -/
+def answer (line : String) : String :=
+  if line.startsWith "theoryheap " then PySMT.TheoryHeapDriver.answer line
+  else PySMT.WalkerDriver.answer line
+
+partial def loop (h : IO.FS.Stream) (out : IO.FS.Stream) : IO Unit := do
+  let line ← h.getLine
+  if line.isEmpty then return ()
+  let line := if line.back == '\n' then (line.dropEnd 1).toString else line
+  out.putStrLn (answer line)
+  loop h out
+
+def main : IO Unit := do
+  let out ← IO.getStdout
+  loop (← IO.getStdin) out
+  out.flush
